@@ -42,6 +42,7 @@
 #include <sstream>
 #include <string>
 #include <sys/mman.h>
+#include <sys/stat.h>
 #include <sys/personality.h>
 #include <sys/prctl.h>
 #include <sys/ptrace.h>
@@ -671,6 +672,28 @@ int main(int argc, char **argv) {
       else snprintf(res, sizeof(res), "ok");
     } else snprintf(res, sizeof(res), "noexit");   // execve that succeeded / task died
     fprintf(logf, "%ld v%d %ld %d %s = %s%s\n", gstep, v.id, v.vstep, v.inWrite ? 1 : 0, desc.c_str(), res, faultNote.c_str());
+    // simulated file times: a completed call that modifies a file under ROOT stamps it with the simulated clock,
+    // so that st_mtime (like time()) is a pure function of the seed and the schedule
+    if (gotExit && result >= 0) {
+      const bool isOpen = desc.compare(0, 5, "open ") == 0;
+      bool modifies = desc.compare(0, 6, "write ") == 0 || desc.compare(0, 7, "writev ") == 0 ||
+                      desc.compare(0, 10, "ftruncate ") == 0 || desc.compare(0, 9, "truncate ") == 0;
+      if (isOpen) {
+        size_t f = desc.rfind(" fl=");
+        unsigned long fl = f == std::string::npos ? 0 : strtoul(desc.c_str() + f + 4, 0, 8);
+        modifies = (fl & (O_CREAT | O_TRUNC)) != 0 && (fl & O_ACCMODE) != O_RDONLY;
+      }
+      if (modifies) {
+        size_t a = desc.find(' '), b = desc.find(' ', a + 1);
+        std::string pth = desc.substr(a + 1, b == std::string::npos ? std::string::npos : b - a - 1);
+        if (!pth.empty() && pth[0] != '/') pth = ROOT + "/" + pth;
+        const uint64_t now = 1700000000ull * 1000000000ull + CLOCK0 + (uint64_t) gstep * TICK;
+        struct timespec ts[2];
+        ts[0].tv_sec = ts[1].tv_sec = (time_t) (now / 1000000000ull);
+        ts[0].tv_nsec = ts[1].tv_nsec = (long) (now % 1000000000ull);
+        utimensat(AT_FDCWD, pth.c_str(), ts, 0);
+      }
+    }
     // in-flight write window bookkeeping
     {
       const bool isOpen = desc.compare(0, 5, "open ") == 0;
